@@ -296,8 +296,6 @@ theorem uBytes_insert (keys : List (List Nat)) (datas : List (List Nat)) (hl : k
     have := congrArg List.sum (List.take_append_drop idx sizes)
     simp only [List.sum_append] at this ⊢
     rw [sum_replicate']; omega
-  have hlen : (Spec.insertAt datas idx (List.replicate n img)).length = datas.length + n := by
-    simp [Spec.insertAt]; omega
   have hoffs : offsets (sizes.take idx ++ List.replicate n img.length ++ sizes.drop idx) 0
       = (offsets sizes 0).take idx ++ offsets (List.replicate n img.length) (sizes.take idx).sum
         ++ ((offsets sizes 0).drop idx).map (applyDelta false (n * img.length)) := by
@@ -307,7 +305,7 @@ theorem uBytes_insert (keys : List (List Nat)) (datas : List (List Nat)) (hl : k
     simp only [applyDelta, Bool.false_eq_true, if_false] at this
     rw [this]
   rw [← hsizes]
-  simp only [uBytes, uHdrOf, hmap, hsum, hlen, hoffs, List.length_append, List.length_replicate, List.length_take,
+  simp only [uBytes, uHdrOf, hmap, hsum, hoffs, List.length_append, List.length_replicate, List.length_take,
     List.length_drop, hsl]
   have hmin : min idx datas.length + n + (datas.length - idx) = datas.length + n := by omega
   rw [hmin]
@@ -448,8 +446,6 @@ theorem uBytes_remove (keys : List (List Nat)) (datas : List (List Nat)) (hl : k
   have hsplit := sum_take_add_drop sizes hi
   have hsum : (sizes.take lo ++ sizes.drop hi).sum = sizes.sum - ((sizes.take hi).sum - (sizes.take lo).sum) := by
     simp only [List.sum_append]; omega
-  have hlen : (Spec.removeRange datas lo hi).length = datas.length - (hi - lo) := by
-    simp [Spec.removeRange]; omega
   have hoffs : offsets (sizes.take lo ++ sizes.drop hi) 0
       = (offsets sizes 0).take lo
         ++ ((offsets sizes 0).drop hi).map (applyDelta true ((sizes.take hi).sum - (sizes.take lo).sum)) := by
@@ -461,7 +457,7 @@ theorem uBytes_remove (keys : List (List Nat)) (datas : List (List Nat)) (hl : k
     congr 2
     simp only [applyDelta, if_true]; omega
   rw [← hsizes]
-  simp only [uBytes, uHdrOf, hmap, hsum, hlen, hoffs, List.length_append, List.length_take, List.length_drop, hsl]
+  simp only [uBytes, uHdrOf, hmap, hsum, hoffs, List.length_append, List.length_take, List.length_drop, hsl]
   have hmin : min lo datas.length + (datas.length - hi) = datas.length - (hi - lo) := by omega
   rw [hmin]
   have htbl : tbl ((offsets sizes 0).take lo
